@@ -13,7 +13,7 @@ From Verif Require Import Base.FloatUtil Backtest.Backtest.
 
 Inductive case :=
   CBack (names readable : list nat) (nstrat nworkers : nat) (trace : list call)
-        (data_results : list (nat * list nat))     (* DataReport.Results: asset -> strategy indices in stored order *)
+        (data_results : option (list (nat * list nat)))   (* DataReport.Results: asset -> strategy indices in stored order; None: HTML report *)
         (rankings : list (list float)).            (* every ranking presented (asset pages, index page), outcomes in order *)
 
 Definition mem (k : nat) (l : list nat) : bool := existsb (Nat.eqb k) l.
@@ -35,7 +35,7 @@ Definition check (c : case) : nat :=
       let p := run_schedule window eval nstrat (init_pool n names) (round_robin_sched n (List.length names * (nstrat + 4) + 2)) in
       let model_ok := finished p && protocol_ok nstrat names (fun k => mem k readable) (map erase (run_trace p))
                       && (if Nat.eqb n 1 then calls_eqb trace (map erase (sequential_trace window eval nstrat names)) else true) in
-      let spec_ok := protocol_ok nstrat names (fun k => mem k readable) trace && data_ok names readable nstrat d in
+      let spec_ok := protocol_ok nstrat names (fun k => mem k readable) trace && match d with Some d' => data_ok names readable nstrat d' | None => true end in
       let rank_ok := forallb (non_increasing float fgeb) rankings in
       (if model_ok then 0 else 1) + (if spec_ok then 0 else 2) + (if rank_ok then 0 else 4)
   end.
